@@ -81,6 +81,17 @@ def gen_c06(tier, rng):
         # the Ticker interface promises nothing about sign or origin: streams also start below zero and cross it
         s.append(conc.Scn("a%d" % i, "breaker", tick_stream(rng, 4 * n + 8, start=rng.choice([0, 0, 0, -3, -10, -17, -25, -40])), [ops], "dfs 0 1", rand_cfg(rng)))
     s += gen_trip_boundary(tier, rng, scale(tier, 160, 0))
+    # bounded-exhaustive: EVERY call sequence up to the bound, under a few configurations and ticker styles
+    import itertools
+    n = 0
+    for L in range(1, scale(tier, 6, 8) + 1):
+        for seq in itertools.product(["c", "s", "f"], repeat=L):
+            for k in range(scale(tier, 1, 2)):
+                style = rng.choice(["advance", "still", "back", "mixed"])
+                cfgo = cfg_opts(thr=rng.choice([0.5, 0.3, 0.01]), minreq=rng.choice([1, 2]), trial=rng.choice([1, 3]), openw=rng.choice([4, 10]),
+                                window=rng.choice([12, 20]), interval=rng.choice([2, 5]), listeners=rng.choice([1, 2]))
+                s.append(conc.Scn("e%d" % n, "breaker", tick_stream(rng, 4 * L + 8, style=style), [list(seq)], "dfs 0 1", cfgo))
+                n += 1
     return s
 
 # deterministic set-up: thr .5, minreq 2, interval 5, window 20, openw 10, trial 3;
